@@ -890,6 +890,109 @@ def ob_raise_arguments(run, mir, rp, fam):
     run.samples.append({"obligation": ob.id, "ok_paths": n_ok})
 
 
+CLASS_RS = ckern.GEN + "class.rs"
+
+
+def class_args_family(rp):
+    """Class arguments are the constructor's parameters: a default must fit the declared type and may only use what is defined."""
+    f = e2.Family(rp)
+    f.add("class-field-argument-default-wrong-type", 'class A(def x: Int := "s")\ndef a := A()\n', "reject")
+    f.add("class-argument-default-wrong-type", 'class A(x: Int := "s")\n    def y: Int := 0\ndef a := A()\n', "reject")
+    f.add("class-field-argument-default-undefined", "class A(def x: Int := zz)\ndef a := A()\n", "reject")
+    f.add("class-field-argument-defaults-conforming", 'class A(def x: Int := 4, def name: Str := "n")\ndef a := A()\nprint(a.x + 1)\n', "accept")
+    f.add("class-argument-default-conforming", "class A(x: Int := 4)\n    def y: Int := 0\ndef a := A(2)\n", "accept")
+    f.add("class-field-argument-default-subtype", "class A(def x: Float := 4)\ndef a := A()\n", "accept")
+    f.add("class-field-argument-nullable", "class A(def x: Int?)\ndef a := A(None)\n", "accept")
+    f.add("class-field-argument-fin", "class A(def fin x: Int := 4)\ndef a := A()\nprint(a.x)\n", "accept")
+    f.add("class-argument-does-not-shadow-outside", 'def x := "outer"\nclass A(def x: Int := 4)\n    def m(self) -> Int => self.x\ndef y: Str := x\n', "accept")
+    f.add("class-argument-not-bare-in-method", "class A(def x: Int)\n    def m(self) -> Int => x\n", "reject")
+    f.add("class-argument-handed-to-parent", 'class E(msg: Str): Exception(msg)\ndef f() raise [E] => raise E("a")\n', "accept")
+    return f
+
+
+def ob_class_arguments(run, mir, rp, fam):
+    ob = run.ob("class-arguments-checked", "E2", "gen_class, a class with arguments: on every successful path the arguments of the class - the parameters of its "
+                "constructor - are handed to constraint generation (some call on the path takes them), and in one iteration over them, from an arbitrary loop "
+                "state, the argument at hand is generated (a field argument `def x: T := e`) or constrained like a function parameter, so a default is "
+                "compared with the declared type and its names are looked up", ["gen_class (Class)", "the helper gen_class hands the arguments to (loop body)"])
+    fn = e2.find1(mir, file=CLASS_RS, name="gen_class")
+    ex = Exec(mir, max_paths=20000, inline=[ckern.ENV_SETTERS])
+    st = State()
+    _rel, lay = ckern.node_enum()
+    args = opq("class.args", "Vec<AST>")
+    tyast, _ = ckern.mk_ast("class.ty", opq("class.ty.node", "Node"))
+    blk, _ = ckern.mk_ast("class.body", ckern.mk_node("Block", {"statements": opq("class.statements", "Vec<AST>")}))
+    body, _some = sym_option("class.body.opt", blk, "Option<Box<AST>>")
+    vals = {"ty": tyast, "args": args, "parents": opq("class.parents", "Vec<AST>"), "body": body}
+    if sorted(vals) != sorted(lay["Class"]):
+        raise Unsupported(f"Node::Class fields changed: {lay['Class']}")
+    ast, _ = ckern.mk_ast("ast", ckern.mk_node("Class", {k: vals[k] for k in lay["Class"]}))
+    env, ev = ckern.sym_env(ex, st)
+    ctx, constr = ckern.refs(ex, st, "ctx", "constr")
+    ends = e2.run_kernel(run, ex, fn, [Ref(ex.new_cell(st, ast)), env, ctx, constr], st)
+    claims, n_ok, takers = [], 0, set()
+    args_v = ex.to_val(st, args)
+    for p in ends:
+        if result_kind(p) != "Ok":
+            continue
+        n_ok += 1
+        s = p.state
+        derived = [args_v]
+        hit = []
+        for e_ in p.events:
+            if any(any(z3.eq(z3.simplify(a == d), z3.BoolVal(True)) or z3.eq(a, d) for d in derived) for a in e_["argvals"] if z3.is_expr(a)):
+                if re.search(r"(Deref|AsRef|Borrow)::|as_slice|::iter$|IntoIterator", e_["name"]):
+                    derived.append(ex.to_val(s, e_["ret"]))
+                else:
+                    hit.append(e_)
+        takers |= {h["name"] for h in hit}
+        claims.append(z3.Implies(conj(p.cond), z3.BoolVal(bool(hit))))
+    if not n_ok:
+        raise Unsupported("no Ok path in the Class arm")
+    # one iteration of the helper's loop
+    n_iter = 0
+    for name in sorted(takers):
+        cands = mir.find(file=CLASS_RS, name=name.split("::")[-1])
+        for hf in cands[:1]:
+            sth = State()
+            hargs = []
+            for an, aty in hf.args:
+                t = aty.strip()
+                hargs.append(Ref(ex.new_cell(sth, opq(f"h{an}", t.lstrip("&").replace("mut ", "").strip()))) if t.startswith("&") and not t.startswith("&[") else opq(f"h{an}", t))
+            for p in e2.run_kernel(run, ex, hf, hargs, sth):
+                nx = calls(p, "Iterator::next")
+                if not nx or p.kind not in ("loop_back", "return"):
+                    continue
+                s = p.state
+                d = ex.discr(s, nx[-1]["ret"], "Option<&AST>")
+                item = ex.project(s, ex.project(s, nx[-1]["ret"], ("v", "Some")), ("f", 0), "&AST")
+                iv = ex.to_val(s, item)
+                after = p.events[p.events.index(nx[-1]) + 1:]
+                wraps = [iv] + [ex.to_val(s, e_["ret"]) for e_ in after if "from_ref" in e_["name"] and any(z3.is_expr(a) and z3.eq(a, iv) for a in e_["argvals"])]
+                seen = [e_ for e_ in after if e_["name"] in ("generate", "constrain_args", "id_from_var") and any(z3.eq(e_["argvals"][0], w) for w in wraps)]
+                if p.kind == "loop_back" or result_kind(p) == "Ok":
+                    n_iter += 1
+                    claims.append(z3.Implies(z3.And(conj(p.cond), d == 1), z3.BoolVal(bool(seen))))
+    if takers and not n_iter:
+        ob.inconclusive(f"no loop iteration found in {sorted(takers)}")
+        return
+    cf = class_args_family(rp)
+
+    def replay(model):
+        r = cf.as_replay("class-arguments:")(model)
+        if r and r.get("reproduced"):
+            r["failing_programs"] = r.get("all_failing_roles")
+        return r
+    e2.prove(run, ob, ex, [], conj(claims), {}, replay)
+    if ob.status == "discharged":
+        k, bad = cf.run()
+        run.validated += k
+        if bad:
+            ob.status = "pending"
+            ob.inconclusive(f"class-argument family disagrees although the kernel is as specified: {bad[:2]}")
+    run.samples.append({"obligation": ob.id, "ok_paths": n_ok, "arguments_taken_by": sorted(takers), "loop_iterations": n_iter})
+
+
 FLOW_RS = ckern.GEN + "control_flow.rs"
 
 
@@ -1834,7 +1937,7 @@ def run(run):
                "outside: that a violation is still caught in every nesting context (branch forking in ConstrBuilder); the accepted-exactly-when direction for whole programs")
     run.trusted += ["rustc nightly MIR dump", "mirsym MIR semantics", "z3"]
     run.bounds = {"paths": "all paths of each kernel with loops cut at their headers"}
-    for f in (ob_call_parameters, ob_argument_signature, ob_call_result, ob_compound_assignment, ob_method_parameters, ob_fn_value_arguments, ob_access_direction, ob_shadow_mapping, ob_operator_typing, ob_range_operands, ob_raise_arguments, ob_flow_constraints, ob_return, ob_id_from_var, ob_initialiser_scope, ob_fun_body, ob_fun_body_scope, ob_branch_scope, ob_arm_scope, ob_unify_type):
+    for f in (ob_call_parameters, ob_argument_signature, ob_call_result, ob_compound_assignment, ob_method_parameters, ob_fn_value_arguments, ob_access_direction, ob_shadow_mapping, ob_operator_typing, ob_range_operands, ob_raise_arguments, ob_class_arguments, ob_flow_constraints, ob_return, ob_id_from_var, ob_initialiser_scope, ob_fun_body, ob_fun_body_scope, ob_branch_scope, ob_arm_scope, ob_unify_type):
         try:
             f(run, mir, rp, fam)
         except Unsupported as e:
